@@ -100,6 +100,17 @@ def explains (tbl : List Entry) (host : Bytes) (qt : Nat) (impl : Out) : Bool :=
     | some prefs => canonOut (processRewritesWith (srtOf prefs) tbl host qt) == canonOut impl
     | none => false
 
+/-- Does the model explain the implementation's CheckHost result?  (Empty host →
+`Result{}`; only Rewritten results are kept.) -/
+def checkAgree (tbl : List Entry) (host : Bytes) (qt : Nat) (iCh : Out) : Bool :=
+  let lh := Bytes.lower host
+  if host = [] then iCh == Out.empty
+  else if iCh.rewritten then explains tbl lh qt iCh
+  else iCh == Out.empty &&
+    -- some tie-breaking makes processRewrites(lower host) a non-rewritten result
+    (if !unstableRegime tbl lh qt then !(processRewrites tbl lh qt).rewritten
+     else explains tbl lh qt Out.empty)
+
 def classOf (tbl : List Entry) (host : Bytes) (qt : Nat) : String :=
   let run := processRun (fun _ => stable) tbl host qt
   let o := run.out
@@ -133,25 +144,98 @@ def stepRw (ins impl : List String) : Option String := do
         match parseOut rest2 with
         | some (iCh, []) =>
           let lh := Bytes.lower host
-          -- CheckHost: empty host → Result{}; keep only Rewritten results
-          let chAgree :=
-            if host = [] then iCh == Out.empty
-            else if iCh.rewritten then explains tbl lh qt iCh
-            else iCh == Out.empty &&
-              -- some tie-breaking makes processRewrites(lower host) a non-rewritten result
-              (if !unstableRegime tbl lh qt then !(processRewrites tbl lh qt).rewritten
-               else explains tbl lh qt Out.empty)
+          let chAgree := checkAgree tbl host qt iCh
           let agree := explains tbl host qt iPr && chAgree
           let spec :=
-            if !Spec.specOK tbl host qt iPr then some (Spec.failClass tbl host qt iPr)
+            -- processRewrites expects a lower-cased name (CheckHost lower-cases it): the
+            -- case-insensitive monitor applies there; a mixed-case name handed to
+            -- processRewrites directly is judged byte for byte
+            if !(if lh = host then Spec.specOK tbl host qt iPr else Spec.specExact tbl host qt iPr) then
+              some (Spec.failClass tbl host qt iPr)
             else if host ≠ [] ∧ !Spec.specOK tbl lh qt iCh then some (Spec.failClass tbl lh qt iCh ++ ".checkhost")
             else if host = [] ∧ iCh.rewritten then some "C06.root-query-rewritten"
             else none
           pure (verdict agree spec modelS)
         | _ => none
       | none =>
-        -- an unexpected Reason (neither NotFilteredNotFound nor Rewritten) or a panic
-        pure (verdict false (some "C06.unexpected-result") modelS)
+        match impl with
+        | ["SKIP"] => pure (verdict true none modelS)   -- harness gave up after repeated hangs (already reported)
+        | ["HANG"] => pure (verdict false (some "C06.nontermination") modelS)
+        | "PANIC" :: _ => pure (verdict false (some "C06.panic") modelS)
+        | _ =>
+          -- an unexpected Reason (neither NotFilteredNotFound nor Rewritten) or an error
+          pure (verdict false (some "C06.unexpected-result") modelS)
+    | _ => none
+  | _ => none
+
+/-
+Line:  C06.dns  n  (domain answer kind ip)×n  host  qtype  =>  k asked×k  rcode  qname  m  (typ owner data)×m
+-/
+def parseRRs : Nat → List String → Option (List RR × List String)
+  | 0, rest => some ([], rest)
+  | n + 1, t :: o :: d :: rest => do
+    let typ ← parseNat t
+    let owner ← hexDecode o
+    let data ← hexDecode d
+    let (rs, rest') ← parseRRs n rest
+    pure (⟨typ, owner, data⟩ :: rs, rest')
+  | _, _ => none
+
+def parseObs (impl : List String) : Option DnsObs := do
+  match impl with
+  | kS :: rest =>
+    let k ← parseNat kS
+    let (askedS, rest1) ← takeN k rest
+    let asked ← askedS.mapM hexDecode
+    match rest1 with
+    | rc :: qn :: mS :: rest2 =>
+      let rcode ← parseNat rc
+      let qname ← hexDecode qn
+      let m ← parseNat mS
+      let (rrs, rest3) ← parseRRs m rest2
+      if rest3.isEmpty then pure ⟨asked, rcode, qname, rrs⟩ else none
+    | _ => none
+  | _ => none
+
+def showObs (o : DnsObs) : String :=
+  toString o.asked.length ++ String.join (o.asked.map (fun a => "\t" ++ hexEncode a)) ++ "\t" ++
+    toString o.rcode ++ "\t" ++ hexEncode o.question ++ "\t" ++ toString o.answer.length ++
+    String.join (o.answer.map (fun r => "\t" ++ toString r.typ ++ "\t" ++ hexEncode r.owner ++ "\t" ++ hexEncode r.data))
+
+def dnsClass (tbl : List Entry) (host : Bytes) (qt : Nat) : String :=
+  (match dispatch (checkHost tbl host qt) with
+   | .pass => if tbl.any (matchesHost · (Bytes.lower host)) then "dns-pass-exception" else "dns-pass-nomatch"
+   | .upstream _ => "dns-cname-upstream"
+   | .answer c ips => if ips.isEmpty then "dns-local-nodata" else if c.isEmpty then "dns-local-addr" else "dns-local-cname-addr")
+  ++ (if unstableRegime tbl (Bytes.lower host) qt then "+unstable" else "")
+
+def stepDns (ins impl : List String) : Option String := do
+  match ins with
+  | nS :: rest =>
+    let n ← parseNat nS
+    let (raws, rest') ← parseRaws n rest
+    match rest' with
+    | [hostS, qtS] =>
+      let host ← hexDecode hostS
+      let qt ← parseNat qtS
+      let tbl := prepare raws
+      let m := respond tbl host qt
+      let modelS := dnsClass tbl host qt ++ "\t" ++ showObs m
+      match parseObs impl with
+      | some obs =>
+        -- the reply must be the rendering of a CheckHost result the model explains
+        let agree := match Spec.obsToOut obs host qt with
+          | some o => render o host qt == obs && checkAgree tbl host qt o
+          | none => false
+        let spec := if Spec.dnsSpecOK tbl host qt obs then none
+          else match Spec.obsToOut obs host qt with
+            | none => some "C06.dns-reply-shape"
+            | some o => some (Spec.failClass tbl (Bytes.lower host) qt o ++ ".dns")
+        pure (verdict agree spec modelS)
+      | none =>
+        match impl with
+        | "PANIC" :: _ => pure (verdict false (some "C06.panic.dns") modelS)
+        | _ => pure (verdict false (some "C06.unexpected-result.dns") modelS)
     | _ => none
   | _ => none
 
@@ -161,6 +245,10 @@ def step (_ : Unit) (line : String) : Unit × String :=
   | "C06.rw" :: rest =>
     match splitArrow rest with
     | some (ins, impl) => ((), (stepRw ins impl).getD "bad-op")
+    | none => ((), "bad-op")
+  | "C06.dns" :: rest =>
+    match splitArrow rest with
+    | some (ins, impl) => ((), (stepDns ins impl).getD "bad-op")
     | none => ((), "bad-op")
   | _ => ((), "bad-op")
 
